@@ -89,9 +89,65 @@ def width_suite(ctx):
     return s
 
 
+def branch_pool():
+    """statement lists for one branch of an if: pass-only, plain, blocking (return / raise / continue), starting with a jump, with nested ifs, long"""
+    simple = ["x = 1", "print(x)", "y = x + 1", "z = y * 2"]
+    out = [["pass"], ["pass", "pass"], ["x = 1"], ["x = 1", "pass"], ["return x"], ["return"], ["continue"], ["break"], ["raise ValueError(x)"],
+           ["x = 1", "return x"], ["print(x)", "y = 2", "z = 3", "w = 4"], ["print(x)", "y = 2", "z = 3", "w = 4", "return w"], ["print(x)", "y = 2", "z = 3", "return z"],
+           ["if x:\n    y = 1", "z = 2"], ["if x:\n    return 1\nelse:\n    return 2"], ["if x:\n    y = 1\nif y:\n    z = 1\nif z:\n    w = 1", "return w"],
+           ["if x:\n    if y:\n        return 1\n    return 2\nreturn 3"], ["return x", "print('dead')", "y = 2", "z = 3"], ["continue", "x = 1"], ["a = 1", "b = 2", "c = 3", "d = 4", "e = 5"],
+           ["if x:\n    raise KeyError(x)", "if y:\n    raise ValueError(y)", "return x"], ["while x:\n    x -= 1", "return x"], ["for i in x:\n    return i"], ["with x:\n    return 1"]]
+    return out + [simple[:k] for k in (2, 3, 4)]
+
+
+def orient_suite(ctx):
+    """fixes._orelse_preferred_as_body on every pair of branches of the pool vs Orient.preferOrelse on their summaries (computed with the real
+    is_blocking / _count_branches); and the theorem's statement observed on the real function"""
+    import ast
+    import textwrap
+
+    from pyrefact import core, fixes
+
+    s = Suite("orient")
+    pool = branch_pool()
+
+    def parse_branch(stmts):
+        src = "def f(x, y, z, w):\n    for _ in x:\n" + textwrap.indent("\n".join(stmts), "        ") + "\n"
+        return ast.parse(src).body[0].body[0].body
+
+    def summary(nodes):
+        return [all(isinstance(n, ast.Pass) for n in nodes), any(core.is_blocking(n) for n in nodes), fixes._count_branches(nodes),
+                isinstance(nodes[0], (ast.Return, ast.Continue, ast.Break)), len(nodes)]
+    parsed = [parse_branch(b) for b in pool]
+    sums = [summary(n) for n in parsed]
+    reqs, metas = [], []
+    for i in range(len(pool)):
+        for j in range(len(pool)):
+            reqs.append({"suite": "orient", "body": sums[i], "orelse": sums[j]})
+            metas.append((i, j))
+    answers = ctx.driver.ask(reqs)
+    for (i, j), ans in zip(metas, answers):
+        s.cases += 1
+        real = bool(fixes._orelse_preferred_as_body(parsed[i], parsed[j]))
+        back = bool(fixes._orelse_preferred_as_body(parsed[j], parsed[i]))
+        if ans.get("prefer") != real:
+            s.disagreements.append({"body": pool[i], "orelse": pool[j], "model": ans.get("prefer"), "real": real, "what": "_orelse_preferred_as_body differs from the model"})
+        sane = all((not sm[3] or (sm[4] <= 1 and sm[2] == 1)) and sm[2] >= 1 for sm in (sums[i], sums[j])) and not (sums[i][0] and sums[j][0])
+        s.count("prefers-else" if real else "keeps")
+        if real:
+            s.nt([i, j])
+        if sane and real and back:
+            s.disagreements.append({"body": pool[i], "orelse": pool[j], "what": "the heuristic prefers both orders of two sane branches (contradicts C09.orientation_antisymmetric on the real function)"})
+    s.samples.append({"suite": "orient", "body": ["print(x)", "y = 2", "z = 3", "w = 4"], "orelse": ["return x"], "prefer_else_first": True})
+    s.note = ("every ordered pair of 27 branches (pass-only, plain, blocking by return / raise / continue / loops, starting with a jump, with nested ifs, with dead code, of length 1-5): "
+              "fixes._orelse_preferred_as_body(body, orelse) vs Orient.preferOrelse on the summaries (all-pass, blocking, branch count, leading jump, length - measured with the real is_blocking / _count_branches); "
+              "and no pair of sane branches is preferred in both orders; non-trivial = the else branch is preferred")
+    return s
+
+
 def suites(ctx):
     common.import_pyrefact()
-    return [pipeline.driver_suite(ctx), sweep.converge_suite(ctx, quick_n=70), width_suite(ctx)]
+    return [pipeline.driver_suite(ctx), orient_suite(ctx), sweep.converge_suite(ctx, quick_n=70), width_suite(ctx)]
 
 
 def match_known(d, known):
